@@ -25,9 +25,30 @@ func cropProjects(c *core.Ctx, n int) []*gen.Project {
 		stress := i % 4 // 0 none, 1 drought, 2 frost, 3 waterlogging
 		o := gen.Opts{Years: 2, MinLayers: 3, MaxLayers: 20, Crops: []string{crop}, Drought: stress == 1, ColdWinters: stress == 2,
 			HeavyRain: stress == 3, ShallowGW: stress == 3, ETMethods: []int{2, 3, 4}, Measure: i%3 == 0}
+		// arm "rootLimit": crops with a rooting-depth factor above the reference (WW, WRA 12, ZR 14) on a shallow profile
+		// whose root limit is the profile depth; arm "earlyHarvest": later crops are harvested long before maturity
+		rootArm := crop == "WW" || crop == "WRA" || crop == "ZR" || crop == "WG" || i%5 == 4
+		early := i%3 == 2
+		if rootArm {
+			o.MinLayers, o.MaxLayers = 5, 9
+		}
+		if early {
+			o.Years = 3
+			o.Crops = []string{crop, "SM", "K", "SW"}
+		}
 		p := gen.Random(r, fmt.Sprintf("c%d_%d", c.Seed, i), o)
+		if rootArm {
+			p.Soil.RootDm = p.Soil.Horizons[len(p.Soil.Horizons)-1].LowerDm
+		}
+		if early {
+			for k := 2; k < len(p.Rotation); k++ {
+				if h := p.Rotation[k].Sow + 40 + r.Intn(25); h < p.Rotation[k].Harv {
+					p.Rotation[k].Harv = h
+				}
+			}
+		}
 		p.Cfg.CO2Method = 1 + i%3
-		if i%2 == 1 {
+		if i%2 == 1 || (early && i%4 != 0) {
 			p.Cfg.CropParamFmt = "yml"
 		}
 		nsupply := i % 3
@@ -44,7 +65,7 @@ func cropProjects(c *core.Ctx, n int) []*gen.Project {
 				p.Fert = append(p.Fert, gen.FertEv{Date: e.Sow + 10, Kg: 80, Type: "KAS"})
 			}
 		}
-		p.Arms = []string{fmt.Sprintf("crop=%s params=%s stress=%d co2=%d nsupply=%d", crop, p.Cfg.CropParamFmt, stress, p.Cfg.CO2Method, nsupply)}
+		p.Arms = []string{fmt.Sprintf("crop=%s params=%s stress=%d co2=%d nsupply=%d rootLimitIsProfile=%v earlyHarvest=%v", crop, p.Cfg.CropParamFmt, stress, p.Cfg.CO2Method, nsupply, rootArm, early)}
 		ps = append(ps, p)
 	}
 	return ps
@@ -129,6 +150,15 @@ func rotationProjects(c *core.Ctx, n int) []*gen.Project {
 			row.IrrMax = []int{10, 25, 50}[r.Intn(3)]
 			row.IrrLow = 40 + r.Intn(40)
 			row.Ndem1, row.Ndem2 = 40+r.Intn(100), r.Intn(120)
+			// second / third dressing scheduled by development stage or by day of year; small demands so that the soil
+			// often holds more mineral N than demanded
+			switch (i + len(rows)) % 3 {
+			case 0:
+				row.Stage3, row.Ndem3 = fmt.Sprint(150+r.Intn(50)), 10+r.Intn(50)
+			case 1:
+				row.Stage2, row.Ndem2 = fmt.Sprint(130+r.Intn(40)), 10+r.Intn(60)
+				row.Stage3, row.Ndem3 = "S4", 10+r.Intn(40)
+			}
 			if i%5 == 0 {
 				row.Sow1M, row.Sow1D, row.Sow2M, row.Sow2D = 0, 0, 0, 0 // fixed sowing date from the rotation file
 			}
